@@ -6,12 +6,11 @@
    Reading guide.  [Inv g w] (AlgoInv.v) is the coupling invariant of fragment F1 between the sync state, both
    providers and the not-yet-taken-in events of world [w]; the ghost [g] records which objects users made and the
    contents written to each.  [SCtx g w e en] = Inv + "entry e (>= 2, value en) has just been refreshed from both
-   providers" — the situation inside SyncManager.sync after pre_sync.  What is here is COMPLETE; the assembly of the
-   per-call theorems into one statement about [sync_step] (and from there algo_inv_reachable over whole runs) is
-   not finished and therefore absent — see notes/ALGO_design.md for the exact state. *)
+   providers" — the situation inside SyncManager.sync after pre_sync.  What is here is COMPLETE; statements still open are
+   absent (not admitted) — see notes/ALGO_design.md for the exact state. *)
 From Coq Require Import NArith List Bool.
 From CS Require Import Sx Str PathModel StateModel StateProofs ProvModel AlgoModel AlgoCheck AlgoProofs AlgoState AlgoProv AlgoInv AlgoInit AlgoQuiet AlgoIntake
-     AlgoSync AlgoLatest AlgoFinish AlgoSyncEntry.
+     AlgoSync AlgoLatest AlgoFinish AlgoSyncEntry AlgoStep AlgoUser AlgoCalls AlgoRun.
 Import ListNotations.
 Local Open Scope N_scope.
 
@@ -39,7 +38,8 @@ Print Assumptions ALGO_inv_intake.
 Theorem ALGO_inv_get_latest : forall evl g w e force sides w',
   InvP evl g w -> (2 <= e)%nat -> get_latest w e force sides = ROk w' ->
   InvP evl g w' /\ (forall sd0, prov_of w' sd0 = prov_of w sd0) /\
-  (forall x sd0, x <> e -> getx w' x sd0 = getx w x sd0) /\ now (w_st w) <= now (w_st w').
+  (forall x sd0, x <> e -> getx w' x sd0 = getx w x sd0) /\ now (w_st w) <= now (w_st w') /\
+  (forall sd0, x_tfile (getx w' e sd0) = x_tfile (getx w e sd0)).
 Proof. exact get_latest_pres. Qed.
 Print Assumptions ALGO_inv_get_latest.
 
@@ -49,7 +49,10 @@ Theorem ALGO_inv_refresh_both : forall evl g w e w',
   (forall en, nth_error (ents (w_st w)) e = Some en -> is_discarded (e_ign en) = false) ->
   get_latest w e false [false; true] = ROk w' ->
   InvP evl g w' /\ ReadyS evl w' e false /\ ReadyS evl w' e true /\ (forall sd0, prov_of w' sd0 = prov_of w sd0) /\
-  (forall x sd0, x <> e -> getx w' x sd0 = getx w x sd0).
+  (forall x sd0, x <> e -> getx w' x sd0 = getx w x sd0) /\
+  (exists en en', nth_error (ents (w_st w)) e = Some en /\ nth_error (ents (w_st w')) e = Some en' /\ e_ign en' = e_ign en /\
+                  maxchg en' <= N.max (maxchg en) (now (w_st w'))) /\
+  now (w_st w) <= now (w_st w').
 Proof. exact get_latest_both. Qed.
 Print Assumptions ALGO_inv_refresh_both.
 
@@ -111,7 +114,8 @@ Theorem ALGO_inv_create_synced : forall g w e en s k ob cs n w3 calls rs,
   rs = Finished /\ exists en3, SCtx g w3 e en3 /\
     s_oid (gs en3 s) = Some (ostr_k k) /\ s_oid (gs en3 (negb s)) <> None /\ s_hash (gs en3 s) = s_shash (gs en3 s) /\
     e_ign en3 = INone /\ prov_of w3 s = prov_of w s /\
-    (forall x sd0, x <> e -> getx w3 x sd0 = getx w x sd0) /\ (forall sd0, x_lg (getx w3 e sd0) = x_lg (getx w e sd0)).
+    (forall x sd0, x <> e -> getx w3 x sd0 = getx w x sd0) /\ (forall sd0, x_lg (getx w3 e sd0) = x_lg (getx w e sd0)) /\
+    (forall sd0 k0 cs0, g_get k0 (g_of g sd0) = Some cs0 -> obj_at w3 sd0 k0 = obj_at w sd0 k0).
 Proof. exact create_pres. Qed.
 Print Assumptions ALGO_inv_create_synced.
 
@@ -128,7 +132,8 @@ Theorem ALGO_inv_upload_synced : forall g w e en s k ob cs k' ob' n w3 calls up,
   up = true /\ exists en3, SCtx g w3 e en3 /\
     s_oid (gs en3 s) = Some (ostr_k k) /\ s_oid (gs en3 (negb s)) <> None /\ s_hash (gs en3 s) = s_shash (gs en3 s) /\
     e_ign en3 = INone /\ prov_of w3 s = prov_of w s /\
-    (forall x sd0, x <> e -> getx w3 x sd0 = getx w x sd0) /\ (forall sd0, x_lg (getx w3 e sd0) = x_lg (getx w e sd0)).
+    (forall x sd0, x <> e -> getx w3 x sd0 = getx w x sd0) /\ (forall sd0, x_lg (getx w3 e sd0) = x_lg (getx w e sd0)) /\
+    (forall sd0 k0 cs0, g_get k0 (g_of g sd0) = Some cs0 -> obj_at w3 sd0 k0 = obj_at w sd0 k0).
 Proof. exact upload_pres. Qed.
 Print Assumptions ALGO_inv_upload_synced.
 
@@ -137,9 +142,26 @@ Theorem ALGO_inv_delete_synced : forall g w e en s k w3 calls rs,
   SCtx g w e en -> e_ign en = INone -> s_ex (gs en s) = ExTrashed -> s_oid (gs en s) = Some (ostr_k k) ->
   delete_synced w e s = ROk (w3, calls, rs) ->
   rs = Finished /\ exists en3, SCtx g w3 e en3 /\ is_discarded (e_ign en3) = true /\
-    (forall x sd0, getx w3 x sd0 = getx w x sd0).
+    (forall x sd0, getx w3 x sd0 = getx w x sd0) /\
+    (forall sd0 k0 cs0, g_get k0 (g_of g sd0) = Some cs0 -> obj_at w3 sd0 k0 = obj_at w sd0 k0).
 Proof. exact delete_pres. Qed.
 Print Assumptions ALGO_inv_delete_synced.
+
+(* ---- the invariant: one whole engine step --------------------------------------------------------------------- *)
+(* SyncManager.do = SyncState.change (path-filling loop, tick, pick) + pre_sync + sync + storage_commit, for EVERY
+   iteration order of the change set and every world satisfying the invariant; no temp file outlives the step;
+   [OwnFrame g w w']: every object a user made is, cell for cell, what it was (the engine only makes, writes and
+   deletes its own mirrors) *)
+Theorem ALGO_inv_sync_step : forall g w order w' cs,
+  Inv g w -> NoTmp w -> sync_step w order = ROk (w', cs) -> Inv g w' /\ NoTmp w' /\ OwnFrame g w w'.
+Proof. exact sync_step_pres. Qed.
+Print Assumptions ALGO_inv_sync_step.
+
+(* every engine action (event intake of a side, or a sync step), at every clock reading *)
+Theorem ALGO_inv_engine_step : forall g w a w' cs,
+  Inv g w -> NoTmp w -> (forall sd o, a <> AUser sd o) -> algo_step w a = ROk (w', cs) -> Inv g w' /\ NoTmp w' /\ OwnFrame g w w'.
+Proof. exact engine_step_pres. Qed.
+Print Assumptions ALGO_inv_engine_step.
 
 (* ---- quiescent => both sides equal, from the invariant ------------------------------------------------------ *)
 (* no pending event on either side and an empty change set: the two root-relative trees are equal as sets *)
@@ -147,6 +169,82 @@ Theorem ALGO_quiescent_equal_under_inv : forall g w, Inv g w -> quiescent w = tr
   forall rel kd d, In (rel, (kd, d)) (rel_view w false) <-> In (rel, (kd, d)) (rel_view w true).
 Proof. exact inv_quiescent_equal. Qed.
 Print Assumptions ALGO_quiescent_equal_under_inv.
+
+(* ---- user operations of the domain -------------------------------------------------------------------------- *)
+(* [Dom used lvL lvR g w] links the bookkeeping of the domain predicate in_F1 (names used so far; per side the files
+   its user made and still has, with the contents written) to the world.  Each user operation the domain allows
+   succeeds on the provider, keeps the invariant (the ghost grows) and the link. *)
+Theorem ALGO_inv_user_create : forall used lvL lvR g w sd n d,
+  Inv g w -> NoTmp w -> Dom used lvL lvR g w -> name_ok n = true -> name_mem n used = false ->
+  exists g', Inv g' (user_op w sd (UCreate [n] d)) /\ NoTmp (user_op w sd (UCreate [n] d)) /\
+     (forall k, g_get k (g_of g' (negb sd)) = g_get k (g_of g (negb sd))) /\
+     Dom (n :: used) (if sd then lvL else ([n], [d]) :: lvL) (if sd then ([n], [d]) :: lvR else lvR) g' (user_op w sd (UCreate [n] d)).
+Proof. exact user_create_pres. Qed.
+Print Assumptions ALGO_inv_user_create.
+
+Theorem ALGO_inv_user_write : forall used lvL lvR g w (sd : bool) rel d cs,
+  Inv g w -> NoTmp w -> Dom used lvL lvR g w ->
+  live_get rel (if sd then lvR else lvL) = Some cs -> n_mem d cs = false ->
+  exists g', Inv g' (user_op w sd (UWrite rel d)) /\ NoTmp (user_op w sd (UWrite rel d)) /\
+    (forall k, g_get k (g_of g' (negb sd)) = g_get k (g_of g (negb sd))) /\
+    Dom used (if sd then lvL else (rel, d :: cs) :: live_del rel lvL) (if sd then (rel, d :: cs) :: live_del rel lvR else lvR)
+        g' (user_op w sd (UWrite rel d)).
+Proof. exact user_write_pres. Qed.
+Print Assumptions ALGO_inv_user_write.
+
+Theorem ALGO_inv_user_delete : forall used lvL lvR g w (sd : bool) rel cs,
+  Inv g w -> NoTmp w -> Dom used lvL lvR g w ->
+  live_get rel (if sd then lvR else lvL) = Some cs ->
+  exists g', Inv g' (user_op w sd (UDelete rel)) /\ NoTmp (user_op w sd (UDelete rel)) /\
+    (forall k, g_get k (g_of g' (negb sd)) = g_get k (g_of g (negb sd))) /\
+    Dom used (if sd then lvL else live_del rel lvL) (if sd then live_del rel lvR else lvR) g' (user_op w sd (UDelete rel)).
+Proof. exact user_delete_pres. Qed.
+Print Assumptions ALGO_inv_user_delete.
+
+(* ---- whole runs: ALL in-domain histories, ALL schedules ------------------------------------------------------- *)
+(* [acts] = any interleaving of user operations, per-side intake steps and sync steps, each engine step with any
+   clock reading and any iteration order of the change set; [history_of acts] = its user operations, in F1's domain.
+   Every world such a run reaches (i.e. the model answers ROk all the way) satisfies the coupling invariant. *)
+Theorem ALGO_inv_reachable : forall t0 lg0 acts w,
+  lg0 <= t0 + 1 -> in_F1 (cfg_std 1) (history_of acts) = true ->
+  algo_run (world_init (cfg_std 1) t0 lg0) acts = ROk w -> exists g, Inv g w /\ NoTmp w.
+Proof. exact algo_inv_reachable. Qed.
+Print Assumptions ALGO_inv_reachable.
+
+(* two-way convergence, safety half (C01) and one-sided mirror (C03, as the special case of a one-sided history):
+   whenever such a run is quiescent - no pending event on either side, empty change set - the two root-relative
+   trees are equal *)
+Theorem ALGO_quiescent_equal : forall t0 lg0 acts w,
+  lg0 <= t0 + 1 -> in_F1 (cfg_std 1) (history_of acts) = true ->
+  algo_run (world_init (cfg_std 1) t0 lg0) acts = ROk w -> quiescent w = true ->
+  forall rel kd d, In (rel, (kd, d)) (rel_view w false) <-> In (rel, (kd, d)) (rel_view w true).
+Proof. exact algo_quiescent_equal. Qed.
+Print Assumptions ALGO_quiescent_equal.
+
+(* ---- C03: the origin is untouched --------------------------------------------------------------------------- *)
+(* [algo_run_calls] = algo_run keeping the engine-issued provider calls of every step (the calls the tie compares with
+   the real engine's, step by step).  [CallsOk g cs]: every call goes to the side opposite to a side that holds a
+   user-made object.  One engine step, from any world satisfying the invariant: *)
+Theorem ALGO_engine_calls : forall g w a w' cs,
+  Inv g w -> NoTmp w -> algo_step w a = ROk (w', cs) -> CallsOk g cs.
+Proof. exact engine_step_calls. Qed.
+Print Assumptions ALGO_engine_calls.
+
+(* C03, no echo: sync() on behalf of a side whose object the engine made itself (the events of such an object are the
+   echo of the engine's own create / upload) issues no provider call, whatever the state of the entry *)
+Theorem ALGO_echo_absorbed : forall g w e en s k w' cs fl,
+  SCtx g w e en -> e_ign en = INone -> s_oid (gs en s) = Some (ostr_k k) -> g_get k (g_of g s) = None ->
+  sync_side w e s = ROk (w', cs, fl) -> cs = [].
+Proof. exact mirror_side_no_calls. Qed.
+Print Assumptions ALGO_echo_absorbed.
+
+(* users act on side sd only (any in-domain history, any schedule) => EVERY provider call the engine issues in the
+   whole run - create / upload / delete / rename / mkdir, successful or refused - goes to the other side *)
+Theorem ALGO_origin_untouched : forall t0 lg0 acts sd w cs,
+  lg0 <= t0 + 1 -> in_F1 (cfg_std 1) (history_of acts) = true -> one_sided sd (history_of acts) = true ->
+  algo_run_calls (world_init (cfg_std 1) t0 lg0) acts = ROk (w, cs) -> on_side (negb sd) cs.
+Proof. exact algo_origin_untouched. Qed.
+Print Assumptions ALGO_origin_untouched.
 
 (* ---- the full-strength statement is false: finding A-1 ------------------------------------------------------ *)
 (* dropping "a content written to a file is new for that file" from the domain: a one-sided history of 4
@@ -167,6 +265,26 @@ Print Assumptions ALGO_quiescent_equal_full_refuted.
 Example ALGO_ex_inv_and_quiescent :
   Inv g0 (world_init (cfg_std 1) 1016000 1013000) /\ quiescent (world_init (cfg_std 1) 1016000 1013000) = true.
 Proof. split; [apply init_inv; discriminate|reflexivity]. Qed.
+(* the hypotheses of ALGO_inv_reachable / ALGO_quiescent_equal are met by a run in which the engine creates two files,
+   uploads new contents twice and goes quiet with equal trees (recorded from the real engine) *)
+Example ALGO_ex_run :
+  in_F1 (cfg_std 1) (history_of conv_actions) = true /\ one_sided false (history_of conv_actions) = true /\
+  exists w, algo_run (world_init (cfg_std 1) aba_t0 aba_lg0) conv_actions = ROk w /\
+            quiescent w = true /\ views_equal w = true /\
+            In ([[102]], (ProvModel.KFile, 4)) (rel_view w false) /\ In ([[102]], (ProvModel.KFile, 4)) (rel_view w true) /\
+            In ([[103]], (ProvModel.KFile, 1)) (rel_view w true).
+Proof. exact conv_converges. Qed.
+(* ... and in that run the engine issues 3 provider calls (2 creates, 1 upload), all on REMOTE, all successful *)
+Example ALGO_ex_run_calls :
+  exists w cs, algo_run_calls (world_init (cfg_std 1) aba_t0 aba_lg0) conv_actions = ROk (w, cs) /\
+               map cl_side cs = [true; true; true] /\ map cl_ok cs = [true; true; true].
+Proof.
+  destruct (algo_run_calls (world_init (cfg_std 1) aba_t0 aba_lg0) conv_actions) as [[w cs]|c] eqn:E.
+  - exists w, cs. split; [reflexivity|].
+    assert (Hw: ROk (w, cs) = algo_run_calls (world_init (cfg_std 1) aba_t0 aba_lg0) conv_actions) by (symmetry; exact E).
+    clear E. vm_compute in Hw. injection Hw as -> ->. split; reflexivity.
+  - exfalso. vm_compute in E. discriminate.
+Qed.
 (* the domain of F1 is inhabited by histories that make the engine work *)
 Example ALGO_ex_domain : in_F1 (cfg_std 1) [(false, UCreate [[102]] 2); (true, UCreate [[103]] 1); (false, UWrite [[102]] 3); (false, UDelete [[102]])] = true.
 Proof. reflexivity. Qed.
